@@ -121,7 +121,7 @@ def main():
             fre, kre, dre, verdict, why = r[:5]
             extra = r[5] if len(r) > 5 else {}
             if re.search(fre, fid) and re.search(kre, s["kind"]) and (dre is None or re.search(dre, s["desc"])):
-                row = {"verdict": verdict, "why": why}
+                row = {"verdict": verdict, "why": why, "file": s["fn"].file}
                 row.update(extra)
                 rows[s["key"]] = row
                 break
